@@ -581,6 +581,15 @@ func (cfg *Config) handshakeMaintenance(ctx context.Context, hello *tls.ClientHe
 			// This can happen if the certificate was cleaned up by the storage cleaner, but still
 			// remains in the in-memory cache.
 			if !cfg.storageHasCertResourcesAnyIssuer(ctx, cert.Names[0]) {
+				// Make sure a certificate for this name should (still) be obtained on-demand,
+				// exactly as is done before an on-demand renewal.
+				name, err := cfg.getNameFromClientHello(hello)
+				if err != nil {
+					return cert, err
+				}
+				if err := cfg.checkIfCertShouldBeObtained(ctx, name, true); err != nil {
+					return cert, fmt.Errorf("certificate is not allowed for server name %s: %w", name, err)
+				}
 				logger.Debug("certificate not found on disk; obtaining new certificate")
 				return cfg.obtainOnDemandCertificate(ctx, hello)
 			}
